@@ -219,6 +219,15 @@ class BuiltinMixin(object):
     if isinstance(obj, VRef) and isinstance(obj.cls, ClassInfo):
       r = obj.cls.find_method(nm) is not None or self.has_field(st, obj, nm) or obj.cls.find_class_attr(nm)[1] is not None
       return [(st, VBool(bool(r)))]
+    if isinstance(obj, VVal) and nm == '__len__':
+      out = []
+      for s, tv in self.resolve(st, obj):
+        out.append((s, VBool(isinstance(tv, (VStr, VBytes, VTuple)) or (isinstance(tv, VRef) and tv.cls in ('list', 'tuple', 'dict', 'set')))))
+      return out
+    if isinstance(obj, (VInt, VFloat, VBool, VNone)) and nm == '__len__':
+      return [(st, VBool(False))]
+    if isinstance(obj, (VStr, VBytes)) and nm == '__len__':
+      return [(st, VBool(True))]
     if isinstance(obj, VCallable):
       # opaque user object: whether it carries the attribute is a fixed, unknown fact about that object
       return [(st, VBool(z3.Function('has_attr_' + nm, z3.IntSort(), z3.BoolSort())(obj.t)))]
